@@ -11,6 +11,7 @@ import itertools
 from . import coqlit as L
 from .core import Prop, rp_import
 from .execside import ExecSide
+from .sides import Sides, Spec
 
 COMPS = ['tsched', 'tin', 'a0in', 'ain', 'asched', 'aexec', 'aout', 'a0out', 'tout']
 CNAME = dict(tsched='CTSched', tin='CTIn', a0in='CA0In', ain='CAIn', asched='CASched', aexec='CAExec',
@@ -336,11 +337,18 @@ class C05Pipe(Prop):
                     mean_tasks=round(sum(sizes) / max(1, len(sizes)), 2))
 
 
-class C05(ExecSide, C05Pipe):
+class C05(Sides, ExecSide, C05Pipe):
     exec_sel = ['handed_on_once', 'not_collected_and_canceled', 'outcome_attached', 'exit_code_truthful']
     exec_n = (100, 2000)
-    clauses = C05Pipe.clauses + ['exec:' + c for c in exec_sel]
-    rule = C05Pipe.rule + '; ' + ExecSide.exec_rule
+    # the client's end of the pipeline: what the application's Task objects end up showing, under any delivery
+    # order of the notifications (the C06 check: real TaskManager._update_tasks / Task._update, States model)
+    side_specs = [Spec('client', 'c06', ['progression', 'final_state_consistent', 'no_exception'])]
+    exec_total = len(C05Pipe.clauses) + len(exec_sel)
+    clauses = C05Pipe.clauses + ['exec:' + c for c in exec_sel] + side_specs[0].clause_names()
+    extra_targets = C05Pipe.extra_targets + ['States/Oracle.vo']
+    model_targets = C05Pipe.model_targets + ['States/Oracle.vo']
+    rule = (C05Pipe.rule + '; ' + ExecSide.exec_rule + '; client side: histories of notification batches over 1-4 '
+            'tasks with duplicates, reordering, gaps and contradictory finals (as for C06)')
 
 
 PROP = C05()
